@@ -51,8 +51,11 @@ contract(Contract(
     },
     at_call={"PathSpec.check_file": {
         # C18: each .gitignore is asked about the path relative to ITS directory, directories with a trailing slash
+        # (stated over the chain and the iteration index, not over the loop's local names)
         "relative_to_own_directory": Clause(lambda ex: ex.z(ex.cur_call["file"]) == rel_of(
-            ex, ex.envs[0]["path"], ex.envs[0]["base"], ex.envs[0]["is_dir"])),
+            ex, ex.old_envs[0]["path"],
+            Sym(z3.Select(ex.old_envs[0]["chain"].arr[0], ex.zi(ex.envs[0]["_i"])), "ref"), ex.old_envs[0]["is_dir"])
+            if "_i" in ex.envs[0] else False),
     }},
     loops={0: Loop(inv={"decision": Clause(gi_inv)}, decreases="len(chain) - _i")},
     ensures={
@@ -409,7 +412,16 @@ def strictly_sorted(ex):
         z3.Not(lt(z3.Select(res.arr, c + 1), z3.Select(res.arr, c))), z3.Select(res.arr, c) != z3.Select(res.arr, c + 1)))), "sorted, distinct")
 
 
+def _resolved_post(ex, bound, r):
+    """assumed contract of pathlib: what Path.resolve() returns is canonical (absolute, no '..', no symlink component);
+    Path.absolute() promises no such thing"""
+    from vfcore.theory import Bool, Ref
+    return ex.th.uf("spec_is_resolved", Ref, Bool)(ex.z(r))
+
+
 R_INV = {
+    # every listed path is canonical: two spellings of one file cannot both be listed (C17: duplicate-free, absolute)
+    "canonical": "all(uf('is_resolved', 'bool', result[k]) for k in range(len(result)))",
     "in_seen": "all(result[k] in seen for k in range(len(result)))",
     "distinct": "all(pos[result[k]] == k for k in range(len(result)))",
 }
@@ -428,7 +440,8 @@ contract(Contract(
         "Path": Callee("uf", ret="ref:Path", sig=["p"]),
         "Path.is_file": Callee("uf", ret="bool", sig=["self"]),
         "Path.is_dir": Callee("uf", ret="bool", sig=["self"]),
-        "Path.resolve": Callee("uf", ret="ref:Path", sig=["self"]),
+        "Path.resolve": Callee("uf", ret="ref:Path", sig=["self"], post=_resolved_post),
+        "Path.absolute": Callee("uf", ret="ref:Path", sig=["self"]),
         "self._should_include_explicit": Callee("uf", ret="bool", sig=["self_", "path"]),
         "self._walk_directory": Callee("effect", ret="list[ref:Path]", effect="WALK", sig=["self_", "root"]),
         "self._expand_glob": Callee("effect", ret="list[ref:Path]", effect="GLOB", sig=["self_", "pattern"]),
@@ -436,8 +449,10 @@ contract(Contract(
     loops={0: Loop(inv=R_INV, modifies=["pos"], decreases="len(paths) - _i"),
            1: Loop(inv=R_INV, modifies=["pos"]), 2: Loop(inv=R_INV, modifies=["pos"])},
     raises=("FileNotFoundError",),
-    ensures={"sorted_distinct": Clause(strictly_sorted)},
+    ensures={"sorted_distinct": Clause(strictly_sorted),
+             "canonical": "all(uf('is_resolved', 'bool', result[k]) for k in range(len(result)))"},
     canaries=[
+        ("                resolved = p.resolve()\n", "                resolved = p.absolute()\n", None, ["inv-preserve[loop0.canonical"]),
         ("        result.sort()\n", "", None, ["post["]),
         ("                    if resolved not in seen:\n                        seen.add(resolved)\n                        result.append(resolved)\n            elif any",
          "                    if True:\n                        seen.add(resolved)\n                        result.append(resolved)\n            elif any", None, ["inv-preserve"]),
